@@ -556,6 +556,9 @@ class SyncInterpreter(BaseInterpreter[TContext, TEvent]):
         """
         # For external transitions, prepare for state changes.
         snapshot_before_transition = self._active_state_nodes.copy()
+        # 🕰️ Exiting records history first; an aborted transition must take
+        #    that back as well.
+        history_before = dict(self._history)
         domain = self._find_transition_domain(
             transition, self._domain_anchor(target_state)
         )
@@ -630,6 +633,7 @@ class SyncInterpreter(BaseInterpreter[TContext, TEvent]):
             )
             self._active_state_nodes.clear()
             self._active_state_nodes.update(snapshot_before_transition)
+            self._history = history_before
 
             # ⏱️ Re-arm cancelled timers/services — see the matching comment
             #    in `BaseInterpreter._execute_transition`. Without this the
